@@ -136,7 +136,7 @@ func run(c *core.Ctx) {
 		cancel()
 	}
 	if !caller.Done() {
-		c.Fail("HARNESS.stuck", "caller not done")
+		c.Stuck("caller not done")
 		return
 	}
 	// oracle on the result
